@@ -238,6 +238,22 @@ func init() {
 				}
 			}
 		}
+		// the interleaved node has, in the same process, just handled the other round's message with the same id, event,
+		// payload and signature: for every accepted edge out of the representative states
+		isRep := map[string]bool{}
+		for _, a := range reps {
+			isRep[a] = true
+		}
+		priorDone := map[string]bool{}
+		for _, e := range cr.graph.Edges {
+			if !e.Accepted || !isRep[e.From] || priorDone[e.From+"|"+e.Event] {
+				continue
+			}
+			priorDone[e.From+"|"+e.Event] = true
+			jobs = append(jobs, Job{Pkg: nodePkg, Fn: "VF_C08_Interleave", Opts: opts, Tag: "interleave+same-id state=" + e.From + " event=" + e.Event,
+				Case:   "interleave+same-id state=" + absState(e.From) + " event=" + e.Event,
+				Params: map[string]string{"abs": e.From, "event": e.Event, "prior": "1", "norange": "1", "maxn": "2", "tag": fmt.Sprintf("c08_%d", len(jobs))}})
+		}
 		// every phase change of the n=2 graph (an accepted event that moves the round to another FSM state: phase completions,
 		// which build the per-participant lists handed to operations, and cancellations), from EVERY abstract state it occurs in
 		done := map[string]bool{}
@@ -273,7 +289,7 @@ func init() {
 		cr.trans = cr.Pool.Paths
 		cr.bounds["map_iteration_order"] = "canonical order vs. the reversed order of every Go map range executed inside ProcessMessage (all maps reversed at once; for n=2 quorums these are the only two orders of each map; combinations that reverse only some maps are outside)"
 		cr.samples = append(cr.samples, map[string]interface{}{"determinism_jobs": len(jobs), "representative_states": reps})
-		cr.explanation = "Round isolation: in every path of the one-message harness a message carrying one round id leaves the dump and the signature store of every other round byte-identical. Clock freedom: the same genuinely signed message handled by two nodes over identical stores with independent time.Now streams yields the same public projection (phase, statuses, contributions, threshold, polynomial), the same pending operations (id, type, payload), signatures and board output. Map-order freedom: the second node handles the message with every Go map range iterated in reverse order. Interleaving: a node whose shared stores (operation pool, answered-operation tombstones, dump map, signature store) hold what another round left behind, with arbitrary operation payloads and types built by the real NewOperation/PutOperation/DeleteOperation, handles the message exactly like a node that has seen only this round, and leaves the other round's leftovers untouched (md5/hex/base64 modelled as injective functions: hash collisions are outside)."
+		cr.explanation = "Round isolation: in every path of the one-message harness a message carrying one round id leaves the dump and the signature store of every other round byte-identical. Clock freedom: the same genuinely signed message handled by two nodes over identical stores with independent time.Now streams yields the same public projection (phase, statuses, contributions, threshold, polynomial), the same pending operations (id, type, payload), signatures and board output. Map-order freedom: the second node handles the message with every Go map range iterated in reverse order. Interleaving: a node whose shared stores (operation pool, answered-operation tombstones, dump map, signature store) hold what another round left behind, with arbitrary operation payloads and types built by the real NewOperation/PutOperation/DeleteOperation, handles the message exactly like a node that has seen only this round, and leaves the other round's leftovers untouched; in the +same-id jobs that node has additionally, in the same process, just handled the other round's message with the same message id, event, payload and signature (nothing kept in process memory may matter) (md5/hex/base64 modelled as injective functions: hash collisions are outside)."
 	}}
 }
 
@@ -373,6 +389,10 @@ func init() {
 			jobs = append(jobs, Job{Pkg: nodePkg, Fn: "VF_C14_Pair", Opts: opts, Tag: "state=" + best[n] + " message=" + want[n] + " api=ProcessOperation",
 				Case:   "message=" + want[n] + " api=ProcessOperation",
 				Params: map[string]string{"abs": best[n], "event": want[n], "norange": "1", "maxn": "2", "preemptions": pre, "tag": fmt.Sprintf("c14_%d", len(jobs))}})
+			// the operator answers an operation of ANOTHER round while the poller handles this round's message
+			jobs = append(jobs, Job{Pkg: nodePkg, Fn: "VF_C14_Pair", Opts: opts, Tag: "state=" + best[n] + " message=" + want[n] + " api=ProcessOperation(other round)",
+				Case:   "message=" + want[n] + " api=ProcessOperation(other round)",
+				Params: map[string]string{"abs": best[n], "event": want[n], "apiround": "other", "norange": "1", "maxn": "2", "preemptions": pre, "tag": fmt.Sprintf("c14_%d", len(jobs))}})
 		}
 		res := cr.Pool.Run(jobs)
 		cr.absorb(jobs, res)
@@ -386,7 +406,7 @@ func init() {
 		cr.groupKey = func(v Violation) string { return v.Label + " @ " + v.Case }
 		cr.explanation = "Two logical threads in the executor: the poller side (real ProcessMessage + SaveOffset for one genuinely signed message with symbolic payload) and the API side (real ProcessOperation submitting the result of a pending operation); context switches at every state-store call and board send, all schedules within the pre-emption bound, sync.Mutex with real mutual exclusion between the threads; the final public state must equal one of the two serial orders; no pending operation lost, no retired operation back."
 		cr.bounds["preemptions"] = pre + " (every schedule within the bound, including which side starts)"
-		cr.bounds["pairs"] = "API request ProcessOperation x board message that completes a phase / opens a batch (quick: 3 message kinds, thorough: 7)"
+		cr.bounds["pairs"] = "API request ProcessOperation (answering an operation of this round, or of another round of the node) x board message that completes a phase / opens a batch (quick: 3 message kinds, thorough: 7)"
 		cr.bounds["outside"] = "ApproveParticipation, reinit finish and state reset as the API side; races below the granularity of a state-store call (e.g. Reset swapping the DB handle under SaveOffset); more than one message per tick; n > 2"
 		cr.assume = append(cr.assume, "a context switch can only happen at a state-store call or a board send; sync.Mutex gives mutual exclusion; everything else as in C09")
 		cr.trusted = append(cr.trusted, "gosx SSA->SMT executor with logical threads (engine/sched.go)", "z3 4.8.12")
@@ -428,6 +448,11 @@ func signJobs(cr *CheckRun) []Job {
 	// the node serves a second finished round with another polynomial and a larger threshold after the first one
 	jobs = append(jobs, Job{Pkg: nodePkg, Fn: "VF_NodeSign", Opts: opts, Tag: "n=3 t=2 tasks=1 order=0 then round2 t=3", Case: "t=2 then t=3",
 		Params: map[string]string{"t": "2", "ntasks": "1", "order": "0", "order2": "1", "tworounds": "1", "blob_axioms": "1", "blob_distinct": "1", "tag": fmt.Sprintf("sign_%d", len(jobs))}})
+	// the second batch re-uses the message ids of the first one; the t-th answer of a batch covers only some of its messages
+	for _, extra := range []string{"sameids", "omit"} {
+		jobs = append(jobs, Job{Pkg: nodePkg, Fn: "VF_NodeSign", Opts: opts, Tag: "n=3 t=2 tasks=2 order=0 order2=3 " + extra, Case: "t=2 " + extra,
+			Params: map[string]string{"t": "2", "ntasks": "2", "order": "0", "order2": "3", extra: "1", "blob_axioms": "1", "blob_distinct": "1", "tag": fmt.Sprintf("sign_%d", len(jobs))}})
+	}
 	// message identifiers as arbitrary pairwise distinct strings (1..3 bytes) listed in any order
 	symids = "1"
 	add(3, 2, 0, 0)
@@ -481,7 +506,7 @@ func init() {
 	}}
 	checkDefs["C07"] = &checkDef{level: "model_checking", pkgs: []string{nodePkg}, run: func(cr *CheckRun) {
 		cr.owner = func(l string) bool {
-			return hasPrefixAny(l, "all-batches-stored", "ends-idle", "late-answer-noop", "proposal-accepted", "honest-answer-accepted", "broadcast-accepted")
+			return hasPrefixAny(l, "all-batches-stored", "ends-idle", "late-answer-noop", "proposal-accepted", "honest-answer-accepted", "broadcast-accepted", "incomplete-set-noop")
 		}
 		runSign(cr)
 		cr.states = len(cr.slow)
